@@ -98,13 +98,13 @@ pub fn plan_for(prop: &str, tier: &str) -> Option<Plan> {
             &["pingreq", "keepalive_timeout_disconnect"],
         ),
         "C11" => (
-            vec![prog(General, k(40_000)), prog(Sessions, k(20_000)), prog(Inbound, k(20_000)), enumerated(Scenario::FaultEnum(0), 241_920)],
+            vec![prog(General, k(40_000)), prog(Sessions, k(20_000)), prog(Inbound, k(20_000)), enumerated(Scenario::FaultEnum(0), if q { 241_920 } else { 2_419_200 })],
             "fault_enumeration",
             "random programs in which every fatal result is followed by a random sequence of further operations on the same handle, plus the enumeration FaultEnum(0): for prepared pre-states x operation, the fault-free run is recorded and then every fault kind is injected at every I/O call index. oracle: is_connected/can_publish false, every operation Disconnected (disconnect Ok), I/O counters frozen. non-trivial = a dead-handle probe ran",
             &["dead_handle_probe"],
         ),
         "C12" => (
-            vec![prog(General, k(30_000)), prog(Sessions, k(30_000)), prog(Limits, k(10_000)), enumerated(Scenario::FaultEnum(1), 241_920)],
+            vec![prog(General, k(30_000)), prog(Sessions, k(30_000)), prog(Limits, k(10_000)), enumerated(Scenario::FaultEnum(1), if q { 241_920 } else { 2_419_200 })],
             "fault_enumeration",
             "every explored history ends with connect() over a healthy transport to a conformant broker; FaultEnum(1) cuts prepared scenarios at every I/O call (error, cancel, drop, forget, inside the handshake) first. oracle: connect Ok, first packet a complete CONNECT, QoS 1 probe completes, inbound probe delivered. non-trivial = the final reconnect was attempted after a fault",
             &["final_reconnect_ok"],
@@ -146,7 +146,7 @@ pub fn plan_for(prop: &str, tier: &str) -> Option<Plan> {
             &["fresh_session", "ack_failure_code"],
         ),
         "C19" => (
-            vec![prog(Invalid, k(60_000)), prog(Limits, k(15_000)), prog(Sessions, k(15_000)), enumerated(Scenario::Table, 33_000)],
+            vec![prog(Invalid, k(60_000)), prog(Limits, k(15_000)), prog(Sessions, k(15_000)), enumerated(Scenario::Table, if q { 96 * 304 } else { 960 * 304 })],
             "fault_enumeration",
             "27 property kinds x {publish, subscribe, unsubscribe, disconnect, will} x boundary values: the will column is enumerated in every Invalid run, Table enumerates the rest in random session states; random programs issue invalid requests at random points and check that nothing of them reaches the wire and that quiescence/can_publish/handles are unchanged; Maximum QoS x requested QoS x downgrade. non-trivial = an invalid-request probe was evaluated",
             &["invalid_probe_evaluated", "will_table_entry"],
